@@ -701,6 +701,65 @@ func checkC10(c *Ctx, r *Report) {
 
 	moveRule(c, r, "C10-move")
 
+	// ---- C10-once: a message is returned at most once per query, whatever the forwarder list
+	// looks like (the list the remote announces is not de-duplicated)
+	r.Rule("C10-once", 1, "a message is appended at most once per query")
+	if fn := c.Func(pkg, "(*DirHandler).GetOutbound"); fn != nil {
+		loops := naturalLoops(fn)
+		n := 0
+		eachInstr(fn, func(b *ssa.BasicBlock, _ int, in ssa.Instruction) {
+			call, ok := in.(*ssa.Call)
+			if !ok || callName(&call.Call) != "builtin.append" {
+				return
+			}
+			if sl, isSl := call.Type().Underlying().(*types.Slice); !isSl || !strings.Contains(sl.Elem().String(), "fbb.Message") {
+				return
+			}
+			n++
+			// the loops containing the append, innermost first (smallest body)
+			var inner *loop
+			depth := 0
+			for i := range loops {
+				if loops[i].body[b] {
+					depth++
+					if inner == nil || len(loops[i].body) < len(inner.body) {
+						inner = &loops[i]
+					}
+				}
+			}
+			o := r.Add("C10-once", fnName(fn), "append of a message", c.pos(call.Pos()))
+			if depth <= 1 {
+				o.OK("appended at most once per iteration of the loop over the messages")
+				return
+			}
+			// inside an inner loop (over the forwarders): the inner loop must be left after the append
+			again := false
+			seen := map[*ssa.BasicBlock]bool{}
+			stack := append([]*ssa.BasicBlock{}, b.Succs...)
+			for len(stack) > 0 {
+				x := stack[len(stack)-1]
+				stack = stack[:len(stack)-1]
+				if seen[x] || !inner.body[x] {
+					continue
+				}
+				seen[x] = true
+				if x == inner.header {
+					again = true
+					break
+				}
+				stack = append(stack, x.Succs...)
+			}
+			if again {
+				o.Bad("the append sits in an inner loop (over the announced forwarders) that goes on after it: a forwarder list naming the same address twice - the list a remote announces is not de-duplicated - returns the same message twice, and it is proposed twice")
+			} else {
+				o.OK("the inner loop is left right after the append")
+			}
+		})
+		if n == 0 {
+			r.Add("C10-once", fnName(fn), "append of a message", c.pos(fn.Pos())).OK("no append inside GetOutbound itself (the routing loop lives elsewhere)")
+		}
+	}
+
 	// ---- C10-store
 	r.Rule("C10-store", 2, "inbound store")
 	if fn := c.Func(pkg, "(*DirHandler).ProcessInbound"); fn == nil {
